@@ -341,7 +341,7 @@ func ffTamperings() []ffTamper {
 		}},
 	}
 	ts = append(ts, ffTamper{"sigs-member-minority-topped-up-by-known-non-members", func(r *bnet.FastForwardResponse, w *World) {
-		// at most TrustCount member signatures, plus valid signatures of every other
+		// at most n/3 member signatures, plus valid signatures of every other
 		// key the driver holds (former validators, later joiners, strangers): none of
 		// them belongs to the frame's validator set
 		members := map[string]bool{}
@@ -349,10 +349,8 @@ func ffTamperings() []ffTamper {
 			members[canonKey(p.PubKeyHex)] = true
 		}
 		n := len(members)
-		keep := 0
-		if n > 1 {
-			keep = (n + 2) / 3
-		}
+		// the largest number of member signatures that is not "more than one third"
+		keep := n / 3
 		ks := []string{}
 		for k := range r.Block.Signatures {
 			ks = append(ks, k)
@@ -624,11 +622,18 @@ func runFF(o *Opts) *Summary {
 	s := &Summary{Mode: "ff", Extra: map[string]interface{}{}}
 	var w *World
 	offers, adoptedValid, refused, forgedAdopted := 0, 0, 0, 0
+	leavers := 0
 	tams := ffTamperings()
 	for t := 0; t < o.Traces; t++ {
 		n := o.N
 		if n == 0 {
 			n = 4 + t%3
+			if t%4 == 2 {
+				// the trace in which a validator leaves first: six validators remain,
+				// so that n/3 member signatures plus the leaver's exceed the threshold
+				// the code uses while still not being "more than one third"
+				n = 7
+			}
 		}
 		w2 := NewWorld(o.Seed*1000+int64(t), n+3) // 3 strangers outside every validator set
 		if w == nil {
@@ -690,6 +695,35 @@ func runFF(o *Opts) *Summary {
 			}
 		}
 		gossip(o.Steps/2, run)
+		// in some traces a validator leaves before the fast-forward: the victim knows
+		// it (genesis) although it is no longer in the anchor's validator set
+		if t%4 == 2 && n >= 5 {
+			l := run[len(run)-1]
+			ops := []*pendingOp{vn.startLeave(l, true)}
+			for k := 0; k < 900 && len(ops) > 0; k++ {
+				gossip(1, run)
+				if l.State() == "Babbling" {
+					before := l.State()
+					l.node.VCheckSuspend()
+					if l.State() != before {
+						w.Emit(l.num, "StateChange", map[string]interface{}{"from": before, "to": l.State(), "why": "checkSuspend"},
+							map[string]interface{}{"removedRound": l.core.RemovedRound(), "lcr": l.node.GetLastConsensusRoundIndex()})
+					}
+				}
+				ops = vn.poll(ops)
+			}
+			rest := []*NNode{}
+			for _, nd := range run {
+				if nd != l {
+					rest = append(rest, nd)
+				}
+			}
+			if len(ops) == 0 {
+				leavers++
+			}
+			run = rest
+			gossip(o.Steps/3, run)
+		}
 		trusted := map[string]bool{}
 		for _, k := range gen {
 			trusted[canonKey(w.parts[k-1].PubHex)] = true
@@ -814,6 +848,7 @@ func runFF(o *Opts) *Summary {
 		vn.Close()
 	}
 	s.Extra["offers"] = offers
+	s.Extra["leaves_before_fast_forward"] = leavers
 	s.Extra["valid_adopted"] = adoptedValid
 	s.Extra["refused"] = refused
 	s.Extra["forged_adopted"] = forgedAdopted
